@@ -102,6 +102,38 @@ CONSTANTS = {
         ("J_BIN_BUF", "arrow-json/src/reader/binary_array.rs", r"fn decode_hex_to_writer<.*?let mut buffer = \[0u8; ([0-9]+)\];", "int"),
         ("J_BIN_SHIFT", "arrow-json/src/reader/binary_array.rs", r"fn decode_hex_to_writer<.*?= \(high << ([0-9]+)\) \| low;", "int"),
         ("J_BIN_DIGIT_A", "arrow-json/src/reader/binary_array.rs", r"fn decode_hex_digit\(.*?b'a'\.\.=b'f' => Some\(byte - b'a' \+ ([0-9]+)\),", "int"),
+        # ---- SHAPE items: kind "intlist" with an empty capture group — the value is the empty list when the exact
+        # statement sequence is still in the source and LOST otherwise; `source_shapes` (Theorems.lean) asserts that none
+        # of them is lost, so an edit of a guard / statement order / operand breaks an obligation.
+        ("SH_BLOCK_EMPTY", _ENC, r"fn encode_blocked_range<.*?let len = end\.saturating_sub\(start\);\s*if len == 0 \{\s*(?://[^\n]*\n\s*)*write_long\(out, 0\)\?;\s*return Ok\(\(\)\);\s*\}()", "intlist"),
+        ("SH_BLOCK_ONE", _ENC, r"fn encode_blocked_range<.*?write_long\(out, len as i64\)\?;\s*for row in start\.\.end \{\s*write_item\(out, row\)\?;\s*\}\s*write_long\(out, 0\)\?;\s*Ok\(\(\)\)()", "intlist"),
+        ("SH_LEN_PREFIXED", _ENC, r"fn write_len_prefixed<.*?write_long\(out, bytes\.len\(\) as i64\)\?;\s*out\.write_all\(bytes\)()", "intlist"),
+        ("SH_WRITE_BOOL", _ENC, r"fn write_bool<.*?out\.write_all\(&\[u8::from\(v\)\]\)()", "intlist"),
+        ("SH_FIELD_NULL", _ENC, r"NullState::Nullable \{ nulls, null_order \} if nulls\.is_null\(idx\) => \{\s*return write_optional_index\(out, true, \*null_order\);[^\n]*\n\s*\}\s*NullState::Nullable \{ null_order, \.\. \} => \{\s*write_optional_index\(out, false, \*null_order\)\?;\s*\}\s*\}\s*self\.encoder\.encode\(out, idx\)()", "intlist"),
+        ("SH_BRANCH_BYTE", _ENC, r"fn union_value_branch_byte\(null_order: Nullability, is_null: bool\) -> u8 \{\s*let nulls_first = null_order == Nullability::default\(\);\s*if nulls_first == is_null()", "intlist"),
+        ("SH_UNION_ENC", _ENC, r"write_int\(out, encoder_index as i32\)\?;\s*let encoder = self\.encoders\.get_mut\(encoder_index\).*?encoder\.encode\(out, self\.array\.value_offset\(idx\)\)()", "intlist"),
+        ("SH_MIN_TWOS", _ENC, r"fn minimal_twos_complement\(.*?while k < be\.len\(\) && be\[k\] == sign_byte \{\s*k \+= 1;\s*\}\s*if k == 0 \{\s*return be;\s*\}\s*if k == be\.len\(\) \{\s*return &be\[be\.len\(\) - 1\.\.\];\s*\}\s*let drop = if \(\(be\[k\] \^ sign_byte\) & 0x80\) == 0 \{\s*k\s*\} else \{\s*k - 1\s*\};\s*&be\[drop\.\.\]()", "intlist"),
+        ("SH_DEC_ENC", _ENC, r"Some\(n\) => write_sign_extended\(out, &be, n\),\s*None => write_len_prefixed\(out, minimal_twos_complement\(&be\)\),()", "intlist"),
+        ("SH_OCF_BLOCK", "arrow-avro/src/writer/mod.rs", r"write_long\(&mut self\.writer, batch\.num_rows\(\) as i64\)\?;\s*write_long\(&mut self\.writer, encoded\.len\(\) as i64\)\?;\s*self\.writer\s*\.write_all\(&encoded\).*?self\.writer\s*\.write_all\(sync\)()", "intlist"),
+        ("SH_NULLABLE_READ", _REC, r"let branch = buf\.read_vlq\(\)\?;\s*let is_not_null = match \*nullability \{\s*Nullability::NullFirst => branch != 0,\s*Nullability::NullSecond => branch == 0,\s*\};()", "intlist"),
+        ("SH_UNION_TAG", _REC, r"fn read_tag\(.*?let raw = buf\.get_long\(\)\?;\s*if raw < 0 \{()", "intlist"),
+        ("SH_BLOCKWISE", _REC, r"let block_count = buf\.get_long\(\)\?;\s*match block_count\.cmp\(&0\) \{\s*Ordering::Equal => break,\s*Ordering::Less => \{.*?let count = block_count\.unsigned_abs\(\) as usize;.*?let raw_size = buf\.get_long\(\)\?;\s*let size_in_bytes = usize::try_from\(raw_size\)()", "intlist"),
+        ("SH_BLOCK_CAP", _REC, r"fn process_block_items\(.*?\.checked_add\(count\)\s*\.filter\(\|&t\| i32::try_from\(t\)\.is_ok\(\)\)()", "intlist"),
+        ("SH_GET_BYTES", _CUR, r"pub\(crate\) fn get_bytes\(.*?\.get_long\(\)\?\s*\.try_into\(\).*?if self\.buf\.len\(\) < len \{.*?let ret = &self\.buf\[\.\.len\];\s*self\.buf = &self\.buf\[len\.\.\];()", "intlist"),
+        ("SH_GET_INT", _CUR, r"pub\(crate\) fn get_int\(.*?let varint = self\.read_vlq\(\)\?;\s*let val: u32 = varint\s*\.try_into\(\)()", "intlist"),
+        ("SH_READ_VARINT", _VLQ, r"pub\(crate\) fn read_varint\(buf: &\[u8\]\) -> Option<\(u64, usize\)> \{\s*let first = \*buf\.first\(\)\?;\s*if first < 0x80 \{\s*return Some\(\(first as u64, 1\)\);\s*\}\s*if let Some\(array\) = buf\.get\(\.\.10\) \{\s*return read_varint_array\(array\.try_into\(\)\.unwrap\(\)\);\s*\}\s*read_varint_slow\(buf\)()", "intlist"),
+        ("SH_SIGN_CAST", _REC, r"fn sign_cast_to<.*?if len == N \{.*?let first = raw\.first\(\)\.copied\(\)\.unwrap_or\(0u8\);.*?let mut out = \[sign_byte; N\];\s*if len > N \{.*?let extra = len - N;.*?if raw\[\.\.extra\]\.iter\(\)\.any\(\|&b\| b != sign_byte\).*?out\.copy_from_slice\(&raw\[extra\.\.\]\);\s*return Ok\(out\);\s*\}\s*out\[N - len\.\.\]\.copy_from_slice\(raw\);()", "intlist"),
+        ("SH_HEX_LOOP", "arrow-json/src/reader/binary_array.rs", r"for \(pair_index, pair\) in \(&mut iter\)\.enumerate\(\) \{\s*let base = pair_index \* 2;.*?buffer\[buffered\] = \(high << 4\) \| low;\s*buffered \+= 1;\s*if buffered == buffer\.len\(\) \{\s*writer\s*\.write_all\(&buffer\).*?buffered = 0;\s*\}\s*\}()", "intlist"),
+        ("SH_HEX_TAIL", "arrow-json/src/reader/binary_array.rs", r"let remainder = iter\.remainder\(\);\s*if !remainder\.is_empty\(\) \{.*?buffer\[buffered\] = low;\s*buffered \+= 1;\s*\}\s*if buffered > 0 \{\s*writer\s*\.write_all\(&buffer\[\.\.buffered\]\)()", "intlist"),
+        ("SH_HEX_ENC", "arrow-json/src/writer/encoder.rs", r"for byte in self\.0\.value\(idx\) \{\s*(?://[^\n]*\n\s*)*write!\(out, \"\{byte:02x\}\"\)\.unwrap\(\);\s*\}\s*out\.push\(b'\"'\);()", "intlist"),
+        ("SH_JSON_STR", "arrow-json/src/writer/encoder.rs", r"fn encode_string\(s: &str, out: &mut Vec<u8>\) \{\s*let mut serializer = serde_json::Serializer::new\(out\);\s*serializer\.serialize_str\(s\)\.unwrap\(\);()", "intlist"),
+        ("SH_TAPE_UNICODE", _TAPE, r"4 => \{\s*if let Some\(c\) = char::from_u32\(\*high as u32\) \{\s*write_char\(c, &mut self\.bytes\);\s*self\.stack\.pop\(\);\s*break;\s*\}()", "intlist"),
+        ("SH_CSV_WRITER_BUILD", "arrow-csv/src/writer.rs", r"\.delimiter\(self\.delimiter\)\s*\.quote\(self\.quote\)\s*\.quote_style\(self\.quote_style\)\s*\.double_quote\(self\.double_quote\)\s*\.escape\(self\.escape\)\s*\.terminator\(terminator\)()", "intlist"),
+        ("SH_CSV_PARSER", "arrow-csv/src/reader/mod.rs", r"let mut builder = csv_core::ReaderBuilder::new\(\);\s*builder\.escape\(self\.escape\);\s*builder\.comment\(self\.comment\);\s*if let Some\(c\) = self\.delimiter \{\s*builder\.delimiter\(c\);\s*\}\s*if let Some\(c\) = self\.quote \{\s*builder\.quote\(c\);\s*\}\s*if let Some\(t\) = self\.terminator \{\s*builder\.terminator\(csv_core::Terminator::Any\(t\)\);\s*\}\s*builder\.build\(\)()", "intlist"),
+        ("SH_CSV_NULL", "arrow-csv/src/reader/mod.rs", r"fn is_null\(&self, s: &str\) -> bool \{\s*match &self\.0 \{\s*Some\(r\) => r\.is_match\(s\),\s*None => s\.is_empty\(\),()", "intlist"),
+        ("SH_TAPE_ESCAPES", _TAPE, r"""b'"' => b'"',\s*b'\\\\' => b'\\\\',\s*b'/' => b'/',\s*b'b' => 8,[^\n]*\n\s*b'f' => 12,[^\n]*\n\s*b'n' => b'\\n',\s*b'r' => b'\\r',\s*b't' => b'\\t',()""", "intlist"),
+        ("SH_TAPE_STRING", _TAPE, r"""let s = iter\.skip_chrs\(b'\\\\', b'"'\);\s*self\.bytes\.extend_from_slice\(s\);\s*match next!\(iter\) \{\s*b'\\\\' => self\.stack\.push\(DecoderState::Escape\),()""", "intlist"),
+        ("SH_CSV_WRITER_DEFAULTS", "arrow-csv/src/writer.rs", r"""delimiter: b',',\s*has_header: true,\s*quote: b'"',\s*escape: b'\\\\',\s*terminator: Terminator::Any\(b'\\n'\),\s*double_quote: true,()""", "intlist"),
         ("J_HEX_SHIFT", _TAPE, r"0\.\.=3 => \*high = \(\*high << ([0-9]+)\) \| parse_hex\(next!\(iter\)\)\? as u16,", "int"),
     ],
 }
